@@ -2,6 +2,9 @@ import Spine.Lock
 import Spine.Race
 import Spine.RaceRW
 import Spine.LockTables
+import Spine.LockRW
+import Spine.LockObs
+import Spine.RaceHB
 import Spine.Generated.Locks
 /-!
 # C17 — concurrent use is free of data races and of deadlocks on the stack's own locks
@@ -11,13 +14,22 @@ Property theorems only. Two layers:
 * **abstract** (hand-written models `Spine.Lock`, `Spine.Race`, `Spine.RaceRW`, bridge
   `Spine.LockTables`; proved once, for every number of threads, mutexes, locations and every
   trace): `c17_ranked_no_deadlock`, `c17_guarded_accesses_ordered`, `c17_guarded_trace_ordered`,
-  `c17_rw_guarded_accesses_ordered` (reader/writer locks);
+  `c17_rw_guarded_accesses_ordered` (reader/writer locks), `c17_guarded_no_data_race` (happens-before
+  relation and data race defined, `Spine.RaceHB`), `c17_disciplined_fields_no_data_race` (instance);
 * **instances over the regenerated tables** `Spine.Generated.Locks` (written by `go/lockgraph`
   from the tree under test on every run; `decide`, so a code change that alters a row re-checks
   them): `c17_lock_order_ranked`, `c17_no_lock_leak`, `c17_guarded_by`, `c17_common_lock_sound`,
-  `c17_undisciplined_exact`, `c17_tables_wellformed`, `c17_package_state_guarded`;
+  `c17_undisciplined_exact`, `c17_tables_wellformed`, `c17_package_state_guarded`,
+  `c17_no_shared_address_escapes`;
 * **connection** of the two: `c17_no_deadlock`, `c17_disciplined_fields_ordered` (exclusive mutex
-  model), `c17_disciplined_fields_ordered_rw` (reader/writer model, covers every disciplined field).
+  model), `c17_disciplined_fields_ordered_rw` (reader/writer model, covers every disciplined field);
+* **reader/writer deadlocks** (`Spine.LockRW`: Go's blocking rule with queued writers, refinement to
+  the plain model): `c17_no_rw_deadlock`, `c17_no_self_edge`, `c17_no_reacquisition` (recursive
+  `RLock` included), `c17_recursive_rlock_deadlocks` (why it matters);
+* **what the dynamic cross-check of the analyser establishes** (`Spine.LockObs`; the driver
+  `drv_lockobs` evaluates `acqOk` / `accOk` over these very tables on every observation of the
+  instrumented runs): `c17_observed_no_deadlock`, `c17_rejected_acquisition_breaks_assumption`,
+  `c17_monitored_trace_guarded`, `c17_monitored_fields_ordered`.
 
 What is proved: for every state of the abstract thread/lock model whose "holds h, waits for m"
 pairs are among the extracted edges, no set of threads waits cyclically; for every trace respecting
@@ -155,6 +167,21 @@ theorem c17_no_lock_leak : lockLeaks = [] ∧ unknownLockSites = [] ∧ unbalanc
     list, which then belongs to the trusted base. -/
 theorem c17_no_hand_resolved_self_edge : resolvedSelfEdges = [] := by decide
 
+/-- **No address of a shared field escapes; no field is used both atomically and plainly
+    (instance).** The guarded-by rows attribute loads and stores through a field's address inside
+    the function that takes it. No function of the tree under test lets the address of a field that
+    is written after construction leave it (passed to a call, stored, returned, captured, made an
+    interface) other than as operand of `sync/atomic` or receiver of a method of the module — so no
+    access through a stray pointer is missing from the rows — and no field that is used atomically
+    also has a plain access after construction (a mixed atomic/plain pair is a data race that no
+    mutex row would show). -/
+theorem c17_no_shared_address_escapes : addressEscapes = [] ∧ mixedAtomic = [] := by decide
+
+/-- non-vacuity (independent of the generated rows): the same predicate fails on a table with an
+    escaping address -/
+example : ¬ (["spine.X.f: address passed to g in X.m (x.go:1)"] = ([] : List String) ∧ ([] : List String) = []) := by
+  decide
+
 /-- the post-construction rows of a field -/
 def postRows (f : Nat) : List Access := accesses.filter (fun a => a.field == f && a.post)
 
@@ -232,6 +259,16 @@ theorem c17_table_disciplined (thrs : List Lock.Thr) (he : RespectsEdges lockEdg
     Lock.Disciplined rank thrs :=
   respects_ranked_disciplined rank lockEdges c17_lock_order_ranked thrs he
 
+/-- **Every wait can end.** In every state that respects the extracted edges in which some thread
+    waits, some waiting thread wants a mutex that is free or held only by running (not waiting)
+    threads. Together with `c17_no_lock_leak` (a running holder releases before it returns) this is
+    the state-level content of "none blocking forever on the stack's own locks"; the induction over
+    time under a fair scheduler is NOT formalised (see the audit in `props/C17.py`). -/
+theorem c17_some_waiter_can_proceed (thrs : List Lock.Thr) (he : RespectsEdges lockEdges thrs)
+    (hw : ∃ t ∈ thrs, t.waiting ≠ none) :
+    ∃ t ∈ thrs, ∃ m, t.waiting = some m ∧ ∀ t' ∈ thrs, m ∈ t'.held → t'.waiting = none :=
+  some_waiter_can_proceed thrs (c17_no_deadlock thrs he) hw
+
 /-- non-vacuity of the assumption (independent of the generated rows): an edge table, a state with
     nested waiting that respects it, and the conclusion applies; a cyclic table admits deadlock -/
 example : RespectsEdges [(1, 2), (2, 3), (1, 3)] [⟨[1], some 2⟩, ⟨[1, 2], some 3⟩, ⟨[3], none⟩] := by decide
@@ -270,6 +307,45 @@ theorem c17_disciplined_fields_ordered (f : Nat) (hf : f ∈ sharedFields) (hd :
         exact ⟨hf, by simp [hm, hx]⟩
     exact ⟨m, guarded_trace_ordered m f t1 t2 w1 w2 hne later mid earlier hwf (ht f m hm hex)⟩
 
+/-- **No data race, in the sense of the memory model (abstract).** With happens-before defined as
+    the transitive closure of program order and "an Unlock is synchronised before every later Lock
+    of the same mutex" (`RaceHB.HB`) and a data race as two conflicting accesses by different threads
+    not ordered by it (`RaceHB.DataRace`): a location all of whose accesses are made under one mutex
+    has no data race, in every trace respecting mutual exclusion — all schedules, any number of
+    threads. -/
+theorem c17_guarded_no_data_race (m x : Nat) (tr : List Race.Ev) (hwf : Race.WF tr)
+    (hg : Guarded m x tr) : ¬ RaceHB.DataRace tr x :=
+  RaceHB.guarded_no_data_race m x tr hwf hg
+
+/-- non-vacuity: `DataRace` is satisfiable — two unguarded writes by different threads race — and
+    the guarded example trace satisfies the hypotheses -/
+example : Race.WF RaceHB.racy ∧ RaceHB.DataRace RaceHB.racy 3 := RaceHB.racy_has_data_race
+example : ¬ RaceHB.DataRace exTrace 3 :=
+  c17_guarded_no_data_race 7 3 exTrace (by simp [exTrace, Race.WF, Race.owner])
+    (by simp [exTrace, Race.owner, Guarded])
+
+/-- **No data race on a disciplined field (instance, happens-before form).** In every trace that
+    respects mutual exclusion and the guarded-by table there is no data race on a shared field that
+    is not listed as undisciplined. PARTIAL: exclusive-mutex model, so `rwFields` (common lock held
+    in shared mode by some reads) are excluded here — for them `c17_disciplined_fields_ordered_rw`
+    gives the release/acquire witness, a happens-before RELATION over the reader/writer model is
+    not defined; nothing about `undisciplined` or memory the analyser does not see. -/
+theorem c17_disciplined_fields_no_data_race (f : Nat) (hf : f ∈ sharedFields) (hd : f ∉ undisciplined)
+    (hrw : f ∉ rwFields) (tr : List Race.Ev) (hwf : Race.WF tr) (ht : TableGuarded tr) :
+    ¬ RaceHB.DataRace tr f := by
+  have hc := c17_guarded_by f hf hd
+  cases hm : commonLock f with
+  | none => exact absurd hm hc
+  | some m =>
+    have hex : exclGuardedBy f m = true := by
+      cases hx : exclGuardedBy f m with
+      | true => rfl
+      | false =>
+        exfalso; apply hrw
+        simp only [rwFields, List.mem_filter]
+        exact ⟨hf, by simp [hm, hx]⟩
+    exact RaceHB.guarded_no_data_race m f tr hwf (ht f m hm hex)
+
 /-- a reader/writer trace respects the guarded-by table: every access to a field with a common lock
     is protected by it — writes under the exclusive hold, reads under some hold; that the table's
     rows say so is `c17_common_lock_sound` (THE TRUSTED-TRANSLATOR ASSUMPTION as in `TableGuarded`) -/
@@ -295,5 +371,101 @@ theorem c17_disciplined_fields_ordered_rw (f : Nat) (hf : f ∈ sharedFields) (h
   | none => exact absurd hm hc
   | some m =>
     exact ⟨m, guardedRW_trace_ordered m f t1 t2 w1 w2 hne hconf later mid earlier hwf (ht f m hm)⟩
+
+/-! ## reader/writer locks in the deadlock clause -/
+
+/-- **No self-edge.** No extracted edge leads from a mutex to itself: on the (struct type, field)
+    level no function may ask for a mutex while a mutex of the same type and field is held — neither
+    the same instance (certain self-deadlock, or recursive `RLock`) nor that of another object
+    (same-type nesting, which the identity abstraction could not order). Regenerated: follows from
+    the rank over the current table. -/
+theorem c17_no_self_edge : ∀ e ∈ lockEdges, e.1 ≠ e.2 :=
+  LockRW.ranked_no_self_edge rank lockEdges c17_lock_order_ranked
+
+/-- **No deadlock with reader/writer locks.** In the model with Go's `sync.RWMutex` blocking rule
+    (a `Lock` waits for every holder in either mode; an `RLock` waits for an exclusive holder AND
+    for every queued writer), no state whose mode-forgetting image respects the extracted edges —
+    the analyser counts an `RLock` as an acquisition and a shared hold as a hold — contains a
+    non-empty set of threads each blocked by a member of the set. Any number of goroutines. -/
+theorem c17_no_rw_deadlock (thrs : List LockRW.Thr)
+    (he : RespectsEdges lockEdges (thrs.map LockRW.abs)) : ¬ LockRW.Deadlocked thrs :=
+  LockRW.ranked_edges_no_rw_deadlock rank lockEdges c17_lock_order_ranked thrs he
+
+/-- **No re-acquisition**, recursive read lock included: in every state that respects the extracted
+    edges no goroutine asks for a mutex it already holds, in any combination of modes (`Lock` in
+    `Lock`, upgrade `Lock` in `RLock`, `RLock` in `Lock`, `RLock` in `RLock`). -/
+theorem c17_no_reacquisition (thrs : List LockRW.Thr)
+    (he : RespectsEdges lockEdges (thrs.map LockRW.abs)) :
+    ∀ t ∈ thrs, ∀ w, t.waiting = some w → w.mutex ∉ t.wheld ∧ w.mutex ∉ t.rheld :=
+  LockRW.ranked_no_reacquire rank lockEdges c17_lock_order_ranked thrs he
+
+/-- why the previous theorem is needed (non-vacuity of the finer model): a goroutine holding
+    `RLock m` that asks for `RLock m` again is deadlocked as soon as a writer has queued, although
+    nobody holds `m` exclusively; alone it is not -/
+theorem c17_recursive_rlock_deadlocks :
+    LockRW.Deadlocked LockRW.recursiveRLock ∧ ¬ LockRW.Deadlocked [⟨[], [1], some (.rlock 1)⟩] :=
+  ⟨LockRW.recursiveRLock_deadlocked, LockRW.reader_alone_not_deadlocked⟩
+
+/-- non-vacuity of `c17_no_rw_deadlock` over the regenerated table: a state with a reader, a queued
+    writer and nested waiting along real edges respects the table (`decide` over the current rows:
+    uses the first extracted edge, whatever it is) -/
+example : ∀ e ∈ lockEdges.head?.toList,
+    RespectsEdges lockEdges ([⟨[], [e.1], some (.lock e.2)⟩, ⟨[e.2], [], none⟩, ⟨[], [], some (.rlock e.1)⟩].map LockRW.abs) := by
+  decide +kernel
+
+/-! ## what the dynamic cross-check of the analyser establishes -/
+
+/-- **Observed acquisitions.** If the driver accepted every observed "holds `held`, asks for `m`"
+    (`LockObs.acqOk lockEdges`, the predicate `drv_lockobs` evaluates on each distinct observation
+    of the instrumented runs), then the state in which ALL observed acquisitions are pending at
+    once — in any number of goroutines, together with any threads that only hold — is not
+    deadlocked. -/
+theorem c17_observed_no_deadlock (obs : List LockObs.Obs) (holders : List (List Nat))
+    (h : ∀ o ∈ obs, LockObs.acqOk lockEdges o.1 o.2 = true) :
+    ¬ Lock.Deadlocked (LockObs.obsState obs holders) :=
+  LockObs.observed_no_deadlock rank lockEdges c17_lock_order_ranked obs holders h
+
+/-- … and an observation the driver rejects refutes the trusted-translator assumption: no state
+    containing that thread respects the edges (the harness reports it as a broken tie). -/
+theorem c17_rejected_acquisition_breaks_assumption (o : LockObs.Obs) (thrs : List Lock.Thr)
+    (hrej : LockObs.acqOk lockEdges o.1 o.2 = false) (hin : (⟨o.1, some o.2⟩ : Lock.Thr) ∈ thrs) :
+    ¬ RespectsEdges lockEdges thrs :=
+  LockObs.rejected_breaks_assumption lockEdges o thrs hrej hin
+
+/-- non-vacuity over the regenerated table: the first edge is an accepted observation, its reverse
+    a rejected one -/
+example : ∀ e ∈ lockEdges.head?.toList,
+    LockObs.acqOk lockEdges [e.1] e.2 = true ∧ LockObs.acqOk lockEdges [e.2] e.1 = false := by
+  decide +kernel
+
+/-- **Observed accesses.** A trace in which every access to a field with a common lock was recorded
+    with held sets that are inside the real ones (`LockObs.Faithful`: the recorder of the
+    instrumented copy under-approximates) and accepted by the driver (`LockObs.accOk`) satisfies
+    `TableGuardedRW`, the hypothesis of `c17_disciplined_fields_ordered_rw`. -/
+theorem c17_monitored_trace_guarded (tr : List RaceRW.Ev)
+    (h : ∀ f m, commonLock f = some m → LockObs.AllAccepted m f tr) : TableGuardedRW tr :=
+  fun f m hc => LockObs.accepted_guardedRW m f tr (h f m hc)
+
+/-- … so on such a trace every two conflicting accesses to a disciplined field are ordered by
+    happens-before: the race-freedom clause for the disciplined fields with the trusted-translator
+    assumption replaced by "the monitor accepted every access of this execution". -/
+theorem c17_monitored_fields_ordered (f : Nat) (hf : f ∈ sharedFields) (hd : f ∉ undisciplined)
+    (t1 t2 : Nat) (w1 w2 : Bool) (hne : t1 ≠ t2) (hconf : w1 = true ∨ w2 = true)
+    (later mid earlier : List RaceRW.Ev)
+    (hwf : RaceRW.WF (later ++ RaceRW.Ev.acc t2 f w2 :: (mid ++ RaceRW.Ev.acc t1 f w1 :: earlier)))
+    (h : ∀ g m, commonLock g = some m →
+      LockObs.AllAccepted m g (later ++ RaceRW.Ev.acc t2 f w2 :: (mid ++ RaceRW.Ev.acc t1 f w1 :: earlier))) :
+    ∃ m mid2 e2 mid1 e1 mid0, mid = mid2 ++ e2 :: (mid1 ++ e1 :: mid0) ∧
+      RaceRW.IsAcq e2 t2 m ∧ RaceRW.IsRel e1 t1 m :=
+  c17_disciplined_fields_ordered_rw f hf hd t1 t2 w1 w2 hne hconf later mid earlier hwf
+    (c17_monitored_trace_guarded _ h)
+
+/-- non-vacuity: the reader/writer example trace is accepted access by access (held sets as a
+    faithful recorder reports them), and the write under `RLock` only is rejected by `accOk` -/
+example : LockObs.AllAccepted 7 3 exTraceRW := by
+  refine ⟨fun _ => ⟨[7], [7], ⟨?_, ?_⟩, by decide⟩, ⟨fun _ => ⟨[7], [], ⟨?_, ?_⟩, by decide⟩, trivial⟩⟩ <;>
+    simp [RaceRW.Holds, RaceRW.excl, RaceRW.shared]
+example : LockObs.accOk (some 7) true [7] [] = false ∧ LockObs.accOk (some 7) false [7] [] = true := by
+  decide
 
 end Spine.Props.C17
